@@ -272,6 +272,15 @@ static Outcome run_aes(const Case &c) {
   std::string kA = prbytes((uint64_t)A(2), klen), kB = prbytes((uint64_t)A(2) ^ 0x5555555555ULL, klen);
   for (size_t i = 0; i < klen; i++)
     if (kA[i] == kB[i]) kB[i] = (char)(kB[i] ^ 0x5a);
+  // key shapes: a run of 0x00 / 0xff bytes at the start or at the end of the key (the same in A and B; the other bytes still differ)
+  int shape = (int)(((A(3) % 6) + 6) % 6);
+  if (shape) {
+    size_t n = shape <= 2 ? 8 : shape <= 4 ? 12 : klen - 4;
+    char v = (shape & 1) ? '\0' : '\xff';
+    bool tail = shape == 4;
+    for (size_t i = 0; i < n; i++) kA[tail ? klen - 1 - i : i] = kB[tail ? klen - 1 - i : i] = v;
+    o.cls(v ? "key-with-run-of-0xff" : "key-with-run-of-0x00");
+  }
   AesRun ra, rb;
   std::string err;
   if (!aes_history(c, kA, 1000, ra, err) || !aes_history(c, kB, 777000, rb, err)) {
@@ -306,7 +315,7 @@ static Outcome run_aes(const Case &c) {
 static rc::Gen<Case> gen_aes(int) {
   return rc::gen::exec([]() {
     Case c;
-    c.push_back(Op("aes", {*range<int>(0, 1), *range<int>(0, 1), *rc::gen::arbitrary<int>()}));
+    c.push_back(Op("aes", {*range<int>(0, 1), *range<int>(0, 1), *rc::gen::arbitrary<int>(), *rc::gen::weightedElement<int>({{6, 0}, {2, 1}, {1, 2}, {1, 3}, {1, 4}, {1, 5}})}));
     int n = *range<int>(0, 10);
     for (int i = 0; i < n; i++) {
       int k = *rc::gen::weightedElement<int>({{2, 0}, {3, 1}, {1, 2}, {5, 3}, {2, 4}, {2, 5}});
@@ -427,6 +436,20 @@ static rc::Gen<Case> gen_dh(int) {
 }
 
 // ------------------------------------------------------------------ key files
+// read errors: the n-th fgets() of a key-file read fails with the stream's error indicator set (ld --wrap=fgets,ferror)
+static int g_fgets_fail_at = -1, g_fgets_calls = 0;
+static bool g_stream_error = false;
+extern "C" char *__real_fgets(char *, int, FILE *);
+extern "C" int __real_ferror(FILE *);
+extern "C" char *__wrap_fgets(char *b, int n, FILE *f) {
+  if (g_fgets_fail_at >= 0 && g_fgets_calls++ == g_fgets_fail_at) {
+    g_stream_error = true;
+    errno = EIO;
+    return nullptr;
+  }
+  return __real_fgets(b, n, f);
+}
+extern "C" int __wrap_ferror(FILE *f) { return g_stream_error ? 1 : __real_ferror(f); }
 static std::string g_secret;
 static std::string g_secret_hit;
 static void keyfile_free(void *p, size_t n) {
@@ -442,7 +465,7 @@ static Outcome run_keys(const Case &c) {
   Outcome o;
   if (c.empty()) return o;
   auto A = [&](size_t i) -> int64_t { return i < c[0].a.size() ? c[0].a[i] : 0; };
-  int mode = (int)(((A(0) % 7) + 7) % 7);
+  int mode = (int)(((A(0) % 8) + 8) % 8);
   size_t slen = (size_t)std::min<int64_t>(std::max<int64_t>(A(1), 8), 900);
   std::string secret = prbytes((uint64_t)A(2), slen);
   for (auto &ch : secret) ch = "ABCDEFGHIJKLMNOPQRSTUVWXYZabcdefghijklmnopqrstuvwxyz0123456789+/"[(unsigned char)ch % 64];
@@ -459,6 +482,7 @@ static Outcome run_keys(const Case &c) {
   case 4: break;                                                     // missing id
   case 5: f += "ACCESS_KEY_ID=" + id; break;                         // missing EOL at the end
   case 6: if (!id_first) f += "ACCESS_KEY_ID=" + id + "\n"; break;   // valid file (success path)
+  case 7: f += "OTHER_KEY=value\nACCESS_KEY_ID=" + id + "\n"; break;  // a valid file, but reading it fails (EIO) after the secret line has been delivered
   }
   int fd = memfd_create("keys", 0);
   if (fd < 0 || write(fd, f.data(), f.size()) != (ssize_t)f.size()) {
@@ -473,9 +497,22 @@ static Outcome run_keys(const Case &c) {
   aw::S().on_free_all = keyfile_free;
   char *kid = nullptr, *ksec = nullptr;
   int rc;
+  g_fgets_calls = 0;
+  g_stream_error = false;
+  g_fgets_fail_at = mode == 7 ? (id_first ? 2 : 1) + (int)((A(2) >> 3) & 1) : -1;  // right after the secret line, or one line later
   {
     aw::Arm a;
     rc = shim_aws_readkeys(path, &kid, &ksec);
+  }
+  g_fgets_fail_at = -1;
+  g_stream_error = false;
+  if (mode == 7 && rc == 0) {
+    o.fail("keys-read-error-ignored", "aws_readkeys reported success although reading the key file failed (EIO)");
+    free(kid);
+    free(ksec);
+    aw::S().on_free_all = nullptr;
+    close(fd);
+    return o;
   }
   aw::S().on_free_all = nullptr;
   close(fd);
@@ -497,7 +534,7 @@ static Outcome run_keys(const Case &c) {
 static rc::Gen<Case> gen_keys(int) {
   return rc::gen::exec([]() {
     Case c;
-    c.push_back(Op("keys", {*range<int>(0, 6), *rc::gen::weightedOneOf<int64_t>({{3, range<int64_t>(8, 60)}, {1, range<int64_t>(60, 900)}}), *rc::gen::arbitrary<int>(), *range<int>(0, 1)}));
+    c.push_back(Op("keys", {*range<int>(0, 7), *rc::gen::weightedOneOf<int64_t>({{3, range<int64_t>(8, 60)}, {1, range<int64_t>(60, 900)}}), *rc::gen::arbitrary<int>(), *range<int>(0, 1)}));
     return c;
   });
 }
